@@ -77,6 +77,28 @@ def bind (v : Variant) (job cls inst : Attrs) : Attrs × Bound :=
         envars := dmerge (dmerge cls.envars inst.envars) job.envars }
     ({ executable := b.executable, nprocs := some b.nprocs, memory := some b.memory, envars := b.envars }, b)
 
+/-! ### `DriverBase.__init__`
+`self.executable = executable or default_executable` (the class's declared default, if it has one); with `find` the
+name is replaced by what `shutil.which` finds for it.  The class is only read. -/
+
+/-- the executable a new driver instance ends up with: `which` is the PATH lookup, `declDefault` the
+`default_executable` its class declares, `explicit` the `executable=` argument -/
+def initExecutable (which : String → Option String) (declDefault explicit : Option String) (find : Bool) : Option String :=
+  let exe := explicit <|> declDefault
+  if find then exe.bind which else exe
+
+/-- the attributes of a new instance created with the keyword arguments `req` -/
+def initAttrs (which : String → Option String) (declDefault : Option String) (req : Attrs) (find : Bool) : Attrs :=
+  { req with executable := initExecutable which declDefault req.executable find }
+
+/-- attributes of the instance's own class seen through the instance (`getattr(obj, …) or getattr(type(obj), …)`):
+several driver classes can share one job object, each instance falls back to its own class -/
+def foldClass (cls inst : Attrs) : Attrs :=
+  { executable := inst.executable <|> cls.executable
+    nprocs := inst.nprocs <|> cls.nprocs
+    memory := inst.memory <|> cls.memory
+    envars := dmerge cls.envars inst.envars }
+
 /-- a history of driver creations, attribute changes, uses (`use i` = `driver_i.job.prepare(...)`) and disposals -/
 inductive Ev
   | create (i : Nat) (a : Attrs)
